@@ -63,6 +63,14 @@ def spec_step_model(ctx):
     cfg = "MC_Step.cfg" if ctx.quick else "MC_Step_thorough.cfg"
     r = ctx.tlc("MC_Step", cfg=cfg, workers=NCPU, timeout=3000, heap="24g")
     ctx.notes["spec_model"] = "%s: %d states, all invariants hold" % (cfg, r["distinct"])
+    # anti-vacuity: the negations of the bounds' antecedents must be violated (witnesses exist in the model)
+    saved = (ctx.cov["states"], ctx.cov["transitions"])
+    for probe in ("VacWrite", "VacRead", "VacFold"):
+        v = ctx.tlc("MC_Step", cfg="MC_Step_%s.cfg" % probe, workers=4, timeout=900, heap="4g", ok_codes=(0, 12))
+        if v["code"] != 12:
+            raise ToolError("vacuity probe %s was not violated: the model never reaches the situation the bound talks about" % probe)
+    ctx.cov["states"], ctx.cov["transitions"] = saved
+    ctx.notes["vacuity_probes"] = "VacWrite, VacRead, VacFold each violated as required (a write at exactly floor(W/2), a jump at exactly floor(R/2), a step where folding changes the outcome)"
     return r
 
 
